@@ -65,6 +65,8 @@ pub fn gen_len(rng: &mut Rng, crit: Option<Crit>, wmode: WMode) -> usize {
 
 pub fn run_case(ctx: &mut CaseCtx) -> CaseResult {
     let rng = &mut ctx.rng;
+    // equivalent builder call sequences (see flw::set_build_variant)
+    flw::set_build_variant(rng.below(8) as u8);
     let virtual_clock = !rng.chance(1, 8);
     let naming = flw::gen_naming(rng, true);
     let crit = if virtual_clock {
